@@ -585,8 +585,12 @@ func initProvenance(spk *ssa.Package, g, src string) string {
 				if !ok || st.Addr != ssa.Value(gv) {
 					continue
 				}
-				al, ok := st.Val.(*ssa.Alloc)
-				if !ok {
+				// the value stored: the address of a local (possibly of a small
+				// helper that builds and returns it) that holds the result of a
+				// constructor call
+				target := peel(cv{st.Val, nil})
+				al, ok := target.v.(*ssa.Alloc)
+				if !ok || al.Referrers() == nil {
 					return "the global table is not set to the address of a freshly built table"
 				}
 				for _, ref := range *al.Referrers() {
@@ -594,13 +598,18 @@ func initProvenance(spk *ssa.Package, g, src string) string {
 					if !ok || s2.Addr != ssa.Value(al) {
 						continue
 					}
-					call, ok := s2.Val.(*ssa.Call)
+					built := peel(cv{s2.Val, target.f})
+					call, ok := built.v.(*ssa.Call)
 					if !ok || call.Call.StaticCallee() == nil || len(call.Call.Args) != 1 {
 						return "the table stored is not the result of a constructor call"
 					}
-					ld, ok := call.Call.Args[0].(*ssa.UnOp)
+					arg := peel(cv{call.Call.Args[0], built.f})
+					ld, ok := arg.v.(*ssa.UnOp)
 					if !ok || ld.Op != token.MUL || ld.X != ssa.Value(sv) {
 						return sprintf("the table is built by %s from something other than %s", call.Call.StaticCallee().Name(), src)
+					}
+					if rt := call.Call.StaticCallee().Signature.Results(); rt.Len() != 1 || !types.Identical(rt.At(0).Type(), al.Type().(*types.Pointer).Elem()) {
+						return "the table is not built by a table constructor"
 					}
 					if !strings.HasPrefix(call.Call.StaticCallee().Name(), "new") {
 						return "the table is not built by a table constructor"
